@@ -128,7 +128,7 @@ def run(prop, tier, seed, replay=None):
                           f"{f} fails on a real node fed a decodable hostile datagram (event {at})")
 
     # ---- byte level
-    ntr = 40 if tier == "quick" else 600
+    ntr = 120 if tier == "quick" else 900
     fz = {}
     total_recv = decoded = 0
     for si, (nodes, vs) in enumerate([(["n1", "n2", "n3"], 0), (["n1", "n2"], 30000)]):
